@@ -72,6 +72,7 @@ type Reader struct {
 	bo       binary.ByteOrder
 	pageSize uint32
 	seq      uint32
+	size     int64 // size of the underlying WAL, recorded by ReadHeader
 
 	salt1, salt2     uint32
 	chksum1, chksum2 uint32
@@ -142,6 +143,21 @@ func (r *Reader) ReadHeader() error {
 	r.salt2 = binary.BigEndian.Uint32(hdr[20:])
 	r.chksum1, r.chksum2 = chksum1, chksum2
 
+	// Record the size of the WAL so that ReadFrame can tell when a frame is
+	// cut short by the end of the file without having to read its page data.
+	cur, err := r.r.Seek(0, io.SeekCurrent)
+	if err != nil {
+		return err
+	}
+	end, err := r.r.Seek(0, io.SeekEnd)
+	if err != nil {
+		return err
+	}
+	if _, err := r.r.Seek(cur, io.SeekStart); err != nil {
+		return err
+	}
+	r.size = end
+
 	return nil
 }
 
@@ -192,9 +208,15 @@ func (r *Reader) ReadFrame(data []byte) (pgno, commit uint32, err error) {
 			return 0, 0, io.EOF
 		}
 	} else {
-		// Skip WAL page data.
-		if _, err := r.r.Seek(int64(r.pageSize), io.SeekCurrent); err != nil {
+		// Skip WAL page data. Seeking past the end of the file succeeds, so
+		// check explicitly that the whole page is present: a frame cut short
+		// by the end of the file is a partial read and ends the valid WAL.
+		pos, err := r.r.Seek(int64(r.pageSize), io.SeekCurrent)
+		if err != nil {
 			return 0, 0, err
+		}
+		if pos > r.size {
+			return 0, 0, io.EOF
 		}
 	}
 
